@@ -186,6 +186,33 @@ theorem delete_evaluate_sync_partial (r : Row) (w : BExp)
   | none => rw [hv] at h; simp [syncDeleteEvaluate, matchedSql, h, hv]
   | some b => rw [hv] at h; cases b <;> simp [syncDeleteEvaluate, matchedSql, h, hv]
 
+/-- **expired_sound**: a result other than `_EXPIRED_OBJECT` never depended on an expired
+    attribute — it is the result on the fully loaded object, whatever the database holds
+    in the expired columns (`r'` = any row agreeing with the object on its loaded attributes). -/
+theorem expired_sound (o : Obj) (r' : Row)
+    (hi : ∀ i, o.xi.contains i = false → r'.ints.getD i none = o.row.ints.getD i none)
+    (hs : ∀ i, o.xs.contains i = false → r'.strs.getD i none = o.row.strs.getD i none)
+    (e : BExp) (h : evalPyB o e ≠ .expired) : evalPyB ⟨r', [], []⟩ e = evalPyB o e :=
+  expired_sound_B o r' hi hs e h
+
+/-- **delete_partially_expired_sync_partial**: bulk DELETE on a partially expired object:
+    unless the object is expired as a whole, its removal follows the actual database row. -/
+theorem delete_partially_expired_sync_partial (o : Obj) (r' : Row) (w : BExp)
+    (hi : ∀ i, o.xi.contains i = false → r'.ints.getD i none = o.row.ints.getD i none)
+    (hs : ∀ i, o.xs.contains i = false → r'.strs.getD i none = o.row.strs.getD i none)
+    (he : evaluableB w = true) (hsafe : safeB true r' w = true)
+    (h : syncDeleteEvaluate w o ≠ .expiredAll) :
+    syncDeleteEvaluate w o = (if matchedSql r' w then .removed else .kept) := by
+  have hne : evalPyB o w ≠ .expired := by
+    intro hh; apply h; simp [syncDeleteEvaluate, hh]
+  have h1 := expired_sound o r' hi hs w hne
+  have h2 := delete_evaluate_sync_partial r' w he hsafe
+  simp only [syncDeleteEvaluate] at h2 ⊢
+  rw [← h1]; exact h2
+
+example : syncDeleteEvaluate (.and [.icmp .gt (.col 0) (.lit (some 100)), .icmp .gt (.col 1) (.lit (some 0))])
+    ⟨⟨[some 1, some 2], []⟩, [1], []⟩ = .kept := by decide
+
 example : syncUpdateEvaluate (.icmp .gt (.col 0) (.lit (some 1))) [(1, .add (.col 0) (.lit (some 1)))]
     ⟨⟨[some 5, some 0], []⟩, [], []⟩ = .ok ⟨⟨[some 5, some 6], []⟩, [], []⟩ := by decide
 
